@@ -10,7 +10,7 @@ K = 'Kani loop-free full-domain harnesses on the compiled crate'
 PROPS = {
     'C03': dict(
         title='Expressions evaluate by the Rockstar value rules for every operand kind',
-        verus=['val_ops', 'fold'], kani=['c03_'],
+        verus=['val_ops', 'fold', 'produce'], kani=['c03_'],
         technique=V + ' (val.rs coercion/comparison/arithmetic/rendering against reference tables for all six kinds; '
                       'produce_val.rs operator step incl. short-circuit call counts; floats uninterpreted) + ' + K +
                   ' (all f64/bool payloads of the four scalar kinds, IEEE bit-precise, through Val::* and binary_operator_fold)',
@@ -31,7 +31,7 @@ PROPS = {
     ),
     'C06': dict(
         title='Arrays are independent values with queue and dictionary behaviour',
-        verus=['val_arrays', 'val_ops'], kani=['c06_'],
+        verus=['val_arrays', 'produce', 'val_ops'], kani=['c06_'],
         technique=V + ': val.rs array/queue/dictionary functions against the mathematical content (Seq / Map view), '
                       'auto-extension, key kinds, &mut frame conditions (Rc::make_mut contract)',
     ),
@@ -96,7 +96,7 @@ PROPS = {
     ),
     'C09': dict(
         title='Running any parseable program never crashes the interpreter',
-        verus=['val_ops', 'val_arrays', 'val_mut', 'fold', 'exec_flow', 'exec_glue', 'exec_io', 'env', 'call', 'folder',
+        verus=['val_ops', 'val_arrays', 'val_mut', 'fold', 'produce', 'exec_flow', 'exec_glue', 'exec_io', 'env', 'call', 'folder',
                'linter', 'boring', 'visit_runner'],
         kani=['c09_'],
         panic_site_files=['src/exec/write_val.rs', 'src/exec/val.rs', 'src/exec/produce_val.rs', 'src/exec/exec_stmt.rs',
